@@ -382,6 +382,39 @@ func init() {
 	intrinsics["(*regexp.Regexp).NumSubexp"] = func(fr *frame, args []value) value {
 		return hostRegexp(args[0]).NumSubexp()
 	}
+	// replacement on concrete subjects (registration-time use): native, with the target's callback
+	intrinsics["(*regexp.Regexp).ReplaceAllStringFunc"] = func(fr *frame, args []value) value {
+		re := hostRegexp(args[0])
+		s, ok := args[1].(string)
+		if !ok {
+			fr.ex().unsupported("(*regexp.Regexp).ReplaceAllStringFunc on a symbolic subject")
+		}
+		return re.ReplaceAllStringFunc(s, func(m string) string {
+			r, ok := call(fr.i, fr, 0, args[2], []value{m}).(string)
+			if !ok {
+				fr.ex().unsupported("ReplaceAllStringFunc: the callback returned a symbolic string")
+			}
+			return r
+		})
+	}
+	intrinsics["(*regexp.Regexp).ReplaceAllString"] = func(fr *frame, args []value) value {
+		re := hostRegexp(args[0])
+		s, ok1 := args[1].(string)
+		repl, ok2 := args[2].(string)
+		if !ok1 || !ok2 {
+			fr.ex().unsupported("(*regexp.Regexp).ReplaceAllString on symbolic strings")
+		}
+		return re.ReplaceAllString(s, repl)
+	}
+	intrinsics["(*regexp.Regexp).ReplaceAllLiteralString"] = func(fr *frame, args []value) value {
+		re := hostRegexp(args[0])
+		s, ok1 := args[1].(string)
+		repl, ok2 := args[2].(string)
+		if !ok1 || !ok2 {
+			fr.ex().unsupported("(*regexp.Regexp).ReplaceAllLiteralString on symbolic strings")
+		}
+		return re.ReplaceAllLiteralString(s, repl)
+	}
 	intrinsics["(*regexp.Regexp).FindAllString"] = func(fr *frame, args []value) value {
 		re := hostRegexp(args[0])
 		s, ok := args[1].(string)
